@@ -107,17 +107,22 @@ Definition fresh_old (base : string) (ex : list string) : option string :=
   | None => None
   end.
 
-(* for ncdim in dimensions_with_role[role]: if ncdim_to_size[ncdim] == dimsize: return ncdim
-   (a name without a size is the KeyError of the code) *)
-Fixpoint find_role_dim (cands : list string) (dims : list (string * Z)) (size : Z)
-  : result (option string) :=
+(* for ncdim in dimensions_with_role[role]:
+       if named and ncdim != base: continue
+       if ncdim_to_size[ncdim] == dimsize: return ncdim
+   (a name without a size is the KeyError of the code; [named] = the name was set
+   on the construct, not a default: only a dimension of that very name is re-used) *)
+Fixpoint find_role_dim (named : bool) (base : string) (cands : list string)
+         (dims : list (string * Z)) (size : Z) : result (option string) :=
   match cands with
   | [] => Ok None
   | c :: r =>
-    match assoc c dims with
-    | None => Err KeyErr
-    | Some sz => if Z.eqb sz size then Ok (Some c) else find_role_dim r dims size
-    end
+    if named && negb (String.eqb c base) then find_role_dim named base r dims size
+    else
+      match assoc c dims with
+      | None => Err KeyErr
+      | Some sz => if Z.eqb sz size then Ok (Some c) else find_role_dim named base r dims size
+      end
   end.
 
 Definition role_list (role : string) (roles : list (string * list string)) : list string :=
@@ -130,11 +135,15 @@ Fixpoint role_add (role n : string) (roles : list (string * list string))
   | (r, l) :: t => if String.eqb role r then (r, (l ++ [n])%list) :: t else (r, l) :: role_add role n t
   end.
 
+(* if name not in ncdim_to_size: ncdim_to_size[name] = size *)
+Definition add_dim (n : string) (sz : Z) (dims : list (string * Z)) : list (string * Z) :=
+  if mem n (map fst dims) then dims else (n, sz) :: dims.
+
 Inductive op :=
 | OName (base : string)                          (* _netcdf_name(base) *)
 | ODim (base : string) (size : Z)                (* _netcdf_name(base); _write_dimension(name, size) *)
-| ORole (base : string) (size : Z) (role : string).
-                                                 (* _netcdf_name(base, dimsize=size, role=role);
+| ORole (base : string) (size : Z) (role : string) (named : bool).
+                                                 (* _netcdf_name(base, dimsize=size, role=role, named=named);
                                                     if name not in ncdim_to_size: ncdim_to_size[name] = size *)
 
 (* result of one request: the new state, the name, and whether it was newly issued *)
@@ -151,21 +160,26 @@ Definition step_with (fr : string -> list string -> option string)
     | None => Err OtherErr
     | Some n => Ok (mkN (n :: n_vars s) ((n, sz) :: n_dims s) (n_roles s), n, true)
     end
-  | ORole b sz role =>
+  | ORole b sz role named =>
     if is_empty role then Err ValueErr else
-    match find_role_dim (role_list role (n_roles s)) (n_dims s) sz with
+    match find_role_dim named b (role_list role (n_roles s)) (n_dims s) sz with
     | Err e => Err e
     | Ok (Some n) => Ok (s, n, false)
     | Ok None =>
       match fr b (existing s) with
       | None => Err OtherErr
-      | Some n => Ok (mkN (n :: n_vars s) ((n, sz) :: n_dims s) (role_add role n (n_roles s)), n, true)
+      | Some n => Ok (mkN (n :: n_vars s) (add_dim n sz (n_dims s)) (role_add role n (n_roles s)), n, true)
       end
     end
   end.
 
+(* in the dry run of append mode (the constructs were read from the dataset and carry
+   the names the dataset uses) a name in use is handed out again as it is *)
+Definition fresh_dry (base : string) (ex : list string) : option string := Some (sanitize base).
+
 Definition step := step_with fresh.
 Definition step_old := step_with fresh_old.
+Definition step_dry := step_with fresh_dry.
 
 (* a history of requests; the answers in order *)
 Fixpoint run_with (fr : string -> list string -> option string)
@@ -494,4 +508,87 @@ Definition chunking_parameters (req opt : chunk_req) (shape : list Z) (isz : Z) 
       | _ => FChunks (auto_chunks b isz shape)
       end
     end
+  end.
+
+(* ------------------------------------------------------------------ *)
+(* 6. reference attributes built from the auxiliary coordinates         *)
+(* ------------------------------------------------------------------ *)
+Open Scope string_scope.
+
+(* an auxiliary coordinate as _write_auxiliary_coordinate / _create_geometry_container
+   see it, after its netCDF names have been allocated *)
+Record auxc := mkA {
+  x_name : string;            (* the name allocated for the coordinate variable *)
+  x_props : bool;             (* it has properties *)
+  x_data : bool;              (* it has (representative) values *)
+  x_nodes : option string;    (* geometry with nodes: the node coordinates variable written for it *)
+  x_gm : list string          (* the grid mapping variables written for coordinate references that contain it *)
+}.
+
+(* the netCDF variables that exist in the file because of these coordinates *)
+Definition aux_created (a : auxc) : list string :=
+  ((if x_data a then [x_name a] else []) ++
+   (match x_nodes a with Some n => [n] | None => [] end) ++ x_gm a)%list.
+
+Definition created (auxs : list auxc) : list string := flat_map aux_created auxs.
+
+(* _write_auxiliary_coordinate: what is appended to the 'coordinates' list of the
+   data variable.  No properties and no data: only bounds / nodes are written and
+   nothing is appended.  Otherwise a name is allocated, but the variable is only
+   created when there are data - and only then is there something to name. *)
+Definition aux_listed (a : auxc) : list string :=
+  if negb (x_props a) && negb (x_data a) then []
+  else if x_data a then [x_name a] else [].
+
+(* before C08-fix3-1: the allocated name was appended whether or not the variable was created *)
+Definition aux_listed_old (a : auxc) : list string :=
+  if negb (x_props a) && negb (x_data a) then [] else [x_name a].
+
+(* an attribute that holds names: absent, or a list (the empty list is the
+   empty - not even string valued - attribute that netCDF4 makes of []) *)
+Definition attr_of (l : list string) : option (list string) :=
+  match l with [] => None | _ => Some l end.
+
+Definition coordinates_attr (auxs : list auxc) : option (list string) :=
+  attr_of (flat_map aux_listed auxs).
+
+Definition coordinates_attr_old (auxs : list auxc) : option (list string) :=
+  attr_of (flat_map aux_listed_old auxs).
+
+(* the geometry container (one per field) *)
+Record container := mkG {
+  g_nodes : list string;                  (* node_coordinates *)
+  g_coords : option (list string);        (* coordinates *)
+  g_gm : option (list string)             (* grid_mapping *)
+}.
+
+Definition is_geom (a : auxc) : bool := match x_nodes a with Some _ => true | None => false end.
+
+Definition geoms (auxs : list auxc) : list auxc := filter is_geom auxs.
+
+Definition container_with (empty_gm : option (list string)) (auxs : list auxc)
+  : result (option container) :=
+  match geoms auxs with
+  | [] => Ok None
+  | gs =>
+    let nodes := flat_map (fun a => match x_nodes a with Some n => [n] | None => [] end) gs in
+    let coords := attr_of (flat_map (fun a => if x_data a then [x_name a] else []) gs) in
+    match dedup (flat_map x_gm gs) with
+    | [] => Ok (Some (mkG nodes coords empty_gm))
+    | [m] => Ok (Some (mkG nodes coords (Some [m])))
+    | _ => Err ValueErr
+    end
+  end.
+
+(* no grid mapping: no attribute *)
+Definition container_of := container_with None.
+(* before C08-fix3-2: the empty list stayed in the dictionary and was written *)
+Definition container_of_old := container_with (Some []).
+
+(* a reference attribute is in order: absent, or a non-empty list of names of
+   variables that exist *)
+Definition attr_ok (vars : list string) (a : option (list string)) : Prop :=
+  match a with
+  | None => True
+  | Some l => l <> [] /\ forall n, In n l -> In n vars
   end.
